@@ -22,14 +22,14 @@ CONSTANTS
   InsSet <- InsSmall
   MinEdits = 0
   Randomised = FALSE
-  DumpMod = 4
+  DumpMod = 9
   NRepl = 17
   RichOnly = FALSE
   NeedStruct = FALSE
   MaxRich <- Unlimited
   NCmtCls = 8
-  NCppForms = 18
-  NGarb = 5
+  NCppForms = 27
+  NGarb = 7
   DirectiveCls <- DirCls
 INVARIANT WellNested
 INVARIANT GrammarInNest
